@@ -209,6 +209,18 @@ def history(draw, max_ops=6):
         ops[k] = fail
         if k == 1:
             ops[0] = dict(_op(d, d.pick("set_cov_frame", "set_form", "copy", "set_frame")), i=0)
+    if scenario == 3:
+        # scenario: .infos is read (lazily built and cached), the state - or a copy of it - is then changed,
+        # and .infos is read again
+        tgt = 0
+        seq = [dict(_op(d, "read_infos"), i=0)]
+        if d.coin():
+            seq.append(dict(_op(d, d.pick("copy", "copy_form", "clone")), i=0))
+            tgt = len(init)
+        seq.append(dict(_op(d, "set_coord"), i=tgt, tie=None))
+        seq.append(dict(_op(d, "read_infos"), i=tgt))
+        ops[:len(seq)] = seq
+        ops[:] = ops[:max_ops]
     if scenario == 0:
         # scenario: a covariance attached in an inertial frame is moved in place to a rotating frame
         # (with its state, or alone), and only then the object is copied
